@@ -85,7 +85,8 @@ for mp in sorted(glob.glob(os.path.join(ROOT, 'seeded', '*', 'meta.json'))):
 out.append('')
 out.append('Totals: %(total)d seeded changes (rounds 1–3: four per property, varied; round 4: two more per property, '
            'asked to be SUBTLE — changed defaults, per-client vs per-connection state, wrong receiver or lock kind, '
-           'closure capture, boundary sizes); reported with a concrete failing input by the property\'s own check: '
+           'closure capture, boundary sizes; round 5: two more per property, written as the plausible '
+           'bug fix / clean-up / feature of a hurried maintainer, at least one in a function no earlier change touched); reported with a concrete failing input by the property\'s own check: '
            '%(concrete)d; reported by the own check through a broken proof/tie only (`no-failing-input-found`): %(tie)d; '
            'reported (concretely) only by a neighbouring property\'s check: %(other)d; not reported: %(missed)d. '
            '%(strengthened)d of them were missed or tie-only when first evaluated and led to a stronger generator, '
